@@ -278,7 +278,7 @@ def tie(ctx, res, extra=(), label='main_run_tie'):
             cases.append(dict(name=name, cl=cl, text=t, shell=shell))
     # the random inputs of the caller (C06's generators), each under one random command line with one shell option
     one = [c for c in command_lines(r, False) if len(c['shells']) == 1 and not c['version']]
-    extra = [(k, t) for k, t in extra if len(t) < 4000]
+    extra = [(k, t) for k, t in extra if len(t) < 4000 and b'\0' not in t]     # cg-dump separates its inputs by NUL
     for name, text in r.sample(extra, min(len(extra), 60 if quick else 2500)):
         cl = r.choice(one)
         cases.append(dict(name='random:' + name, cl=cl, text=text, shell=cl['shells'][0]))
